@@ -156,6 +156,31 @@ def ensure_driver(name="driver", release=False, rustflags=None):
     return driver_path(name, "release" if release else "debug")
 
 
+FEATURE_SETS = {
+    "none": [],
+    "autocomplete": ["autocomplete"],
+    "full": ["autocomplete", "docgen", "batteries"],
+    "dull": ["dull-color"],
+    "bright": ["bright-color"],
+}
+
+
+def ensure_driver_variant(tag):
+    """The same driver crate built against /repo with another cargo feature set of bpaf (C20)."""
+    d = os.path.join(ROOT, "harness", "driver")
+    lock = os.path.join(d, "Cargo.lock")
+    if not os.path.exists(lock):
+        sh(["cp", os.path.join(REPO, "Cargo.lock"), lock])
+    tdir = os.path.join(CACHE, "cargo-target-feat", tag)
+    env = dict(OFFLINE_ENV, CARGO_TARGET_DIR=tdir)
+    feats = FEATURE_SETS[tag]
+    cmd = ["cargo", "build", "--offline", "--quiet", "--no-default-features"] + (["--features", ",".join(feats)] if feats else [])
+    rc, out = sh(cmd, cwd=d, env=env, check=False, timeout=1800)
+    if rc != 0:
+        raise BuildError("cargo build of harness/driver [%s] failed:\n%s" % (tag, out[-6000:]))
+    return os.path.join(tdir, "debug", "driver")
+
+
 # ---------------------------------------------------------------- running cases
 def _chunks(lines, k, per=200):
     n = len(lines)
